@@ -8,6 +8,11 @@
 
 package timednetconn
 
+//@ func New returns (c)
+//@   ensures  [wraps-with-the-given-timeouts] c != nil && dynIs(c, "*timednetconn.conn") && c.(*conn).readTimeout == readTimeout &&
+//@              c.(*conn).writeTimeout == writeTimeout && c.(*conn).wrapped == wrapped
+//@   modifies nothing
+
 //@ func (*conn).Read returns (n, err)
 //@   requires c != nil && c.wrapped != nil
 //@   ensures  [armed-first] logLen() >= 1 && logCallee(0, "net.Conn.SetReadDeadline") && logDeadlineFresh(0, c.readTimeout)
